@@ -187,7 +187,7 @@ def check_structs(run, F):
                 continue
             fn = fns[nm]
             env = {b['local']: 'self' for p in fn.params for b in _pat_binds(p)}
-            paths = list(dtree.paths(fn.hir, env))
+            paths = list(dtree.table(fn.hir, env))
             some_ok, none_ok = True, True
             det = []
             nsome = 0
